@@ -107,6 +107,12 @@ func classify(c Case) (labels []string, nontrivial bool) {
 	if c.TLS {
 		labels = append(labels, "inside-tls")
 	}
+	if c.Cfg.CustomCaches {
+		labels = append(labels, "user-supplied-caches")
+	}
+	if len(c.Msgs) > 150 {
+		labels = append(labels, "long-lived-connection(>150 messages)")
+	}
 	if c.Pipelined {
 		labels = append(labels, "pipelined")
 	} else {
